@@ -83,6 +83,7 @@ class MonitorTask(ItemTask):
 
     @asyncio.coroutine
     def process(self, item_session):
+        item_session._verif_start = asyncio.get_event_loop().time()
         ctx_item.set(item_session)
 
 
@@ -117,7 +118,8 @@ class CrawlServer:
         if ctx is not None:
             ur = ctx.url_record
             rec = {'url': ur.url, 'level': ur.level, 'inline_level': ur.inline_level, 'parent_url': ur.parent_url,
-                   'root_url': ur.root_url, 'try_count': ur.try_count, 'link_type': ur.link_type.value if ur.link_type else None}
+                   'root_url': ur.root_url, 'try_count': ur.try_count, 'link_type': ur.link_type.value if ur.link_type else None,
+                   'item_start': getattr(ctx, '_verif_start', None)}
         entry = {'t': h.loop.time(), 'origin': origin.key(), 'target': target, 'url': url, 'method': method, 'rec': rec,
                  'conn': conn.id, 'fields': fields, 'n': len(self.log)}
         self.log.append(entry)
@@ -273,7 +275,7 @@ def read_rows(dbpath):
 
 # ----------------------------------------------------------------------------------------
 # reference reachability
-def reference_crawl(site, starts, opts, own_hosts):
+def reference_crawl(site, starts, opts, own_hosts, allow=None):
     """Reference crawl: breadth-first from the start URLs, one row per URL, depth = shortest link distance
     (what a sequential crawl does). Returns (rows, expected_requests):
     rows: url -> record dict incl. 'passes'; expected_requests: url -> number of expected requests (1),
@@ -295,6 +297,9 @@ def reference_crawl(site, starts, opts, own_hosts):
         rec['passes'] = ok
         rec['failed'] = failed
         rec['followed'] = []
+        if ok and allow is not None and not allow(res):
+            rec['passes'] = ok = False
+            rec['robots'] = 'disallowed'
         if not ok:
             continue
         expected[u] = expected.get(u, 0) + 1
@@ -304,6 +309,9 @@ def reference_crawl(site, starts, opts, own_hosts):
             tgt = doc.redirect_to
             okr, failedr = refscope.passes(urld(tgt), rec, opts, own_hosts)
             if not okr and not (opts.get('strong_redirects', True) and failedr == ['span_hosts']):
+                doc = None
+                break
+            if allow is not None and not allow(tgt):
                 doc = None
                 break
             rec['followed'].append(tgt.url)
